@@ -214,6 +214,23 @@ def run_unit(unit, rng, ctx):
             raise
         check_transitions_matrix(tr, ctx, what, wit)
         occ = check_occupancy(tr, sys_, ctx, what, wit)
+        # the same bookkeeping on time parts (objects whose trajectory and state array have other lengths)
+        n_ev = len(tr.events)
+        if n_ev >= 2 and len(np.asarray(tr.states)) >= 8:
+            n_parts = int(rng.integers(2, min(4, n_ev, len(np.asarray(tr.states)) // 3) + 1))
+            try:
+                for pi, part in enumerate(tr.split(n_parts)):
+                    try:
+                        check_occupancy(part, sys_, ctx, what + f' [part {pi} of split({n_parts})]', wit)
+                        ctx.count('occupancy_checked_on_split_parts')
+                    except ValueError as exc:
+                        if 'occupancies sum to more than 1' in str(exc):
+                            ctx.check(False, what + f' [part {pi} of split({n_parts})]: occupancy() raised {exc}', wit)
+                        else:
+                            raise
+            except ValueError as exc:
+                if 'Not enough transitions' not in str(exc):
+                    raise
         n_j = 0
         try:
             j = tr.jumps(minimal_residence=int(rng.choice([0, 0, 2])))
